@@ -822,7 +822,61 @@ def closure_args_of_call(facts, body, call):
                 cb = facts.closure_body(x.name[len('closure:'):])
                 if cb:
                     out.append(cb)
+            elif x.kind == 'const' and x.const.get('fn'):
+                # a function item passed by name where a closure is expected (`.sort_by(by_rank_desc)`)
+                cb = fn_item_as_closure(facts, x.const['fn'])
+                if cb:
+                    out.append(cb)
     return out
+
+
+def fn_item_as_closure(facts, fn_path):
+    """the body of a crate-local fn, renumbered like a closure body (an unused environment as local 1, the arguments
+    from local 2 on), so that rules written for closures read `f` and `|a, b| f(a, b)` alike"""
+    import copy
+    from mir import Body
+    cache = facts.__dict__.setdefault('_fn_as_closure', {})
+    key = norm(fn_path)
+    if key in cache:
+        return cache[key]
+    bs = facts.get(key)
+    if len(bs) != 1 or bs[0].kind not in ('Fn', 'AssocFn'):
+        cache[key] = None
+        return None
+    d = copy.deepcopy(bs[0].d)
+
+    def shift(v):
+        if isinstance(v, list):
+            for x in v:
+                shift(x)
+            return
+        if not isinstance(v, dict):
+            return
+        if 'l' in v and 'p' in v and isinstance(v['l'], int):
+            if v['l'] >= 1:
+                v['l'] += 1
+            for e in v['p']:
+                if isinstance(e, dict) and 'idx' in e and e['idx'] >= 1:
+                    e['idx'] += 1
+            return
+        if v.get('k') in ('dead', 'live') and isinstance(v.get('l'), int):
+            if v['l'] >= 1:
+                v['l'] += 1
+            return
+        for x in v.values():
+            shift(x)
+    shift(d['blocks'])
+    for v in d.get('dbg', []):
+        shift(v['pl'])
+        if v.get('arg'):
+            v['arg'] += 1
+    d['locals'] = [d['locals'][0], '{fn item}'] + d['locals'][1:]
+    d['nargs'] = d['nargs'] + 1
+    d['kind'] = 'Closure'
+    d['parent'] = ''
+    cb = Body(facts, d)
+    cache[key] = cb
+    return cb
 
 
 def local_callee_bodies(facts, call):
@@ -1164,12 +1218,15 @@ def necessary_keep_facts(body):
     common = None
     payloads = []
 
-    def conds_at(bb):
+    def conds_at(bb, _depth=0):
         here = {}
         for c in path_conditions(body, bb):
             cm = c.cmp()
             if cm:
                 here['%s(%r,%r)' % cm] = cm
+            elif c.kind == 'bool' and c.truth is True and c.expr is not None and c.expr.kind == 'phi' and _depth < 3:
+                # a materialised `a && b` (or matches!): unfold into the facts of the alternative that made it true
+                here.update(truth_facts(body, c.expr, lambda b_: conds_at(b_, _depth + 1)))
             elif c.kind == 'bool' and c.truth is not None:
                 here['bool:%s:%r' % (c.truth, c.expr)] = ('bool', c.truth, c.expr)
             elif c.kind == 'discr':
